@@ -16,8 +16,11 @@ CONSTANTS RecSets,        \* possible zone contents: Seq of [name, page, params]
 
 NoFail == [kind |-> "none", n |-> 0]
 Ech(v) == "ech=" \o v
-IsEch(p) == p \in {Ech(c) : c \in Cfgs \cup {"old"}}
-ValOf(p) == CHOOSE c \in Cfgs \cup {"old"} : p = Ech(c)
+\* stored ech values: the base64 of a config list, of some older list, or damaged text ("C1x": the base64 of C1 followed by a
+\* stray character) - equal to the published value only if it is that very text
+StoredVals == Cfgs \cup {"old", "C1x"}
+IsEch(p) == p \in {Ech(c) : c \in StoredVals}
+ValOf(p) == CHOOSE c \in StoredVals : p = Ech(c)
 
 VARIABLES recs,           \* remote zone "z1": Seq of [name, page, params]
           zoneIds,        \* publisher's cache: set of zone names whose id is known ("z1" -> found, "z2" -> known to be absent)
